@@ -42,7 +42,14 @@ def act_shape(ins, act):
         return ' '.join(sorted(set(['imm' for o in ops if o['k'] == 'imm' and not o['sym']] + ['disp' for m in mems if any(m['d'])])))
     if d == 'syn':
         segs = sorted(set(m['seg'] for m in mems if m['seg']))
-        return GROUP.get(ins['mn'], ins['mn']) + ' ' + ','.join(o['k'] for o in ops) + ((' seg:' + '+'.join(segs)) if segs else '')
+        # the value of an immediate and the width of the operation belong to the class: the two parsers differ on particular
+        # boundary values (which forms a value fits), not on the operand shape as such
+        imms = ['%s0x%x' % ('-' if o.get('neg') else '', core.unlimbs(o['v']) if not o.get('neg') else (1 << 32) - core.unlimbs(o['v']))
+                for o in ops if o['k'] == 'imm' and not o.get('sym')]
+        wd = [{'r8': 8, 'r16': 16, 'r32': 32}.get(o.get('c'), 0) for o in ops if o['k'] == 'reg'] + [m['sz'] for m in mems]
+        wd = ([x for x in wd if x] + [0])[0]
+        return (GROUP.get(ins['mn'], ins['mn']) + ' ' + ','.join(o['k'] for o in ops) + ((' seg:' + '+'.join(segs)) if segs else '')
+                + ((' w%d imm=%s' % (wd, ','.join(imms))) if imms else ''))
     return ','.join(o['k'] for o in ops)
 
 
@@ -51,10 +58,15 @@ def select(lines, outs, n, rnd):
     groups = collections.defaultdict(list)
     for l, o in zip(lines, outs):
         if o['st'] == 'list' and o['c'] and l['plaus'] == '':
-            groups[asmlib.shape(l['ins'])].append(l)
+            # classes: operand shapes x the value of an immediate (every width-boundary value with every destination size) x
+            # the source sweep (condition names, segment overrides)
+            imms = ['%s%x' % ('-' if x.get('neg') else '', core.unlimbs(x['v'])) for x in l['ins']['ops'] if x['k'] == 'imm' and not x.get('sym')]
+            fam = GROUP.get(l['ins']['mn'], l['ins']['mn']) if imms else ''
+            groups[asmlib.shape(l['ins']) + '|' + fam + '|' + ','.join(imms) + '|' + (l['src'] if l['src'] in ('cc', 'seg') else '')].append(l)
     for g in groups.values():
         rnd.shuffle(g)
     keys = sorted(groups)
+    n = max(n, len(keys))           # every class at least once
     sel = []
     while len(sel) < n and keys:
         for k in list(keys):
